@@ -49,6 +49,8 @@ func runC11(c *core.Ctx) {
 	c11R4(c)
 	c11R5(c)
 	c11R6(c)
+	saltRule(c, "C11.R7")
+	jsonTargetRule(c, "C11.R8", "service/keygen")
 }
 
 // errNilPred: the error result (#idx) of call is nil.
